@@ -41,8 +41,8 @@ ASSUMPTIONS = [
     'the end-to-end Jensen consequence (depth with k <= depth with the weight-averaged coefficient) is judged for '
     'linear (T,P) interpolation only, where averaging over g commutes with interpolation',
 ]
-_Q = {'degenerate': 32, 'jensen': 20}
-_T = {'degenerate': 700, 'jensen': 400}
+_Q = {'degenerate': 28, 'jensen': 18, 'sequence': 8}
+_T = {'degenerate': 700, 'jensen': 400, 'sequence': 150}
 BUDGET = {
     'quick': [dict(name='boundscheck', env={'NUMBA_BOUNDSCHECK': '1'}, shards=8, cases=_Q)],
     'thorough': [dict(name='boundscheck', env={'NUMBA_BOUNDSCHECK': '1'}, shards=16, cases=_T)],
@@ -57,8 +57,10 @@ M_JENSEN = 'ktau:T>=exp(-sum_g(w_g*tau_g))'
 M_EMTAU = 'ktau-emission:per-point-tau'
 M_JDEPTH = 'jensen:depth(k)<=depth(mean-k)'
 M_EMK = 'emission:k-spectrum==sum_g(w_g*I_g)'
-REQUIRED = dict(monitors=[M_TR, M_TRT, M_EM, M_EMCF, M_WEXP, M_RANGE, M_JENSEN, M_EMTAU, M_JDEPTH, M_EMK],
-                classes=['family:transmission', 'family:emission', 'ngauss:1', 'ngauss:2-4', 'ngauss:5+',
+M_SEQ_TR = 'sequence:transmission:degenerate-k==xsec'
+M_SEQ_EM = 'sequence:emission:degenerate-k==xsec'
+REQUIRED = dict(monitors=[M_TR, M_TRT, M_EM, M_EMCF, M_WEXP, M_RANGE, M_JENSEN, M_EMTAU, M_JDEPTH, M_EMK, M_SEQ_TR, M_SEQ_EM],
+                classes=['sequence:add:Rayleigh', 'sequence:set', 'sequence:rebuild', 'family:transmission', 'family:emission', 'ngauss:1', 'ngauss:2-4', 'ngauss:5+',
                          'weights:dirichlet', 'weights:gauss-legendre', 'weights:uniform',
                          'magnitude:transparent', 'magnitude:thin', 'magnitude:mixed', 'magnitude:saturating',
                          'molecules:1', 'molecules:2+', 'interp:linear', 'interp:exp', 'k:degenerate',
@@ -230,7 +232,7 @@ def write_world(ctx, spec, ktabs, xsecs=None):
     return xd, kd, root
 
 
-def run(ctx, spec, family, mode, xd, kd, given_deltaz=False):
+def run(ctx, spec, family, mode, xd, kd, given_deltaz=False, steps=None):
     """Configure the caches, build the model through the public API and run it.  mode: 'xsec' | 'ktables'."""
     from taurex.cache import OpacityCache
     from taurex.cache.ktablecache import KTableCache
@@ -271,6 +273,36 @@ def run(ctx, spec, family, mode, xd, kd, given_deltaz=False):
     out = {'wn': np.array(wn, dtype=float), 'spectrum': np.array(spectrum, dtype=float),
            'tau': np.array(tau, dtype=float), 'model': model, 'ktau_min': _state['ktau'], 'xs_em': _state['xs_em'],
            'active': sorted(model.chemistry.activeGases), 'kem_path': _state['kem_path']}
+    if steps:
+        # the SAME model object goes on: contributions are added, parameters written, it is rebuilt, and after every
+        # step it is evaluated again (both members of a pair follow the same steps)
+        from taurex.contributions import RayleighContribution, SimpleCloudsContribution
+        out['seq'] = []
+        first_licence = clamp_licence(out, spec) if (mode == 'xsec' and family == 'emission') else None
+        out['licence'] = first_licence
+        for st in steps:
+            if st['op'] == 'add':
+                model.add_contribution(RayleighContribution() if st['what'] == 'Rayleigh'
+                                       else SimpleCloudsContribution(clouds_pressure=st['pressure']))
+            elif st['op'] == 'set':
+                model[st['name']] = float(model[st['name']]) * st['factor']
+            elif st['op'] == 'rebuild':
+                model.build()
+            if mode == 'xsec' and family == 'emission':
+                _state['xs_em'] = {}
+            if mode == 'ktables':
+                _state['ktau'] = []
+            try:
+                wn2, sp2, tau2, _ = model.model()
+            except InvalidModelException as e:
+                ctx.license(type(e).__name__)
+                out['seq'].append(None)
+                continue
+            r = {'wn': np.array(wn2, dtype=float), 'spectrum': np.array(sp2, dtype=float), 'tau': np.array(tau2, dtype=float),
+                 'model': model, 'xs_em': _state['xs_em'], 'ktau_min': _state['ktau']}
+            if mode == 'xsec' and family == 'emission':
+                r['licence'] = clamp_licence(r, spec)
+            out['seq'].append(r)
     _state['ktau'] = None
     _state['xs_em'] = None
     return out
@@ -520,7 +552,65 @@ def wl_jensen(ctx, rng):
         shutil.rmtree(root, ignore_errors=True)
 
 
-WORKLOADS = {'degenerate': wl_degenerate, 'jensen': wl_jensen}
+def wl_sequence(ctx, rng):
+    """Degenerate k again, but on model objects that live on: after the first evaluation contributions are added
+    (without and with a rebuild), planet parameters are written and the model is evaluated again after every step, in
+    cross-section mode and in k-table mode alike.  Every step's pair is judged by the degenerate equality."""
+    spec = make_case(rng)
+    ng = spec['ngauss']
+    observe_case(ctx, spec, True)
+    ktabs = {m: np.repeat(t['xsec'][..., None], ng, axis=-1) for m, t in spec['tables'].items()}
+    have = [c if isinstance(c, str) else c['name'] for c in spec['contributions']]
+    steps = []
+    for _ in range(int(rng.integers(2, 5))):
+        k = rng.integers(0, 4)
+        if k == 0 and 'Rayleigh' not in have:
+            steps.append({'op': 'add', 'what': 'Rayleigh'})
+            have.append('Rayleigh')
+        elif k == 1:
+            steps.append({'op': 'set', 'name': 'planet_radius', 'factor': float(rng.uniform(0.8, 1.0))})
+        elif k == 2:
+            steps.append({'op': 'set', 'name': 'planet_mass', 'factor': float(rng.uniform(1.0, 1.5))})
+        else:
+            steps.append({'op': 'rebuild'})
+    if not any(st['op'] == 'add' for st in steps) and 'Rayleigh' not in have:
+        steps.insert(int(rng.integers(0, len(steps) + 1)), {'op': 'add', 'what': 'Rayleigh'})
+    ctx.feature(steps=[st['op'] + ':' + str(st.get('what', st.get('name', ''))) for st in steps])
+    xd, kd, root = write_world(ctx, spec, ktabs)
+    try:
+        for family in ('transmission', 'emission'):
+            ctx.feature(family=family)
+            xs = run(ctx, spec, family, 'xsec', xd, kd, steps=steps)
+            kt = run(ctx, spec, family, 'ktables', xd, kd, steps=steps)
+            if xs is None or kt is None:
+                ctx.event('invalid-model-licensed')
+                return
+            early = family == 'transmission' and len(have) > 1
+            for i, (a, b) in enumerate(zip(xs['seq'], kt['seq'])):
+                if a is None or b is None:
+                    ctx.event('invalid-model-licensed')
+                    continue
+                st = steps[i]
+                wit = dict(step=i, op=st['op'], what=st.get('what', st.get('name')), ngauss=ng,
+                           steps=[x['op'] for x in steps[:i + 1]])
+                if family == 'transmission':
+                    if early and near_early_exit(b):
+                        ctx.event('domain-skip:early-exit-threshold')
+                        continue
+                    ctx.close(M_SEQ_TR, b['spectrum'], a['spectrum'], TOL, **wit)
+                else:
+                    add, allow, fired = a['licence']
+                    if allow is None:
+                        ctx.check('xsec-emission-depths-observed', False, **wit)
+                        continue
+                    _close_with_bound(ctx, M_SEQ_EM, b['spectrum'], a['spectrum'] + add, allow, **wit)
+                ctx.observe('sequence:' + st['op'] + (':' + st['what'] if 'what' in st else ''))
+        ctx.sig('seq', spec['nlayers'], ng, spec['magnitude'], tuple(st['op'] for st in steps), round(spec['planet_mass'], 6))
+    finally:
+        shutil.rmtree(root, ignore_errors=True)
+
+
+WORKLOADS = {'degenerate': wl_degenerate, 'jensen': wl_jensen, 'sequence': wl_sequence}
 
 LEVEL_TEXT = ('Exploration by runtime monitoring: each generated world is written as cross-section pickles and as '
               'k-table pickles holding the same numbers at every quadrature point (random weights summing to one), '
